@@ -25,6 +25,10 @@ pub uninterp spec fn the_class(n: &Node) -> Option<&ClassType>;
 #[verifier::external_body] pub fn the_class_of(n: &Node) -> (r: Option<&ClassType>) ensures r == the_class(n) { unimplemented!() }
 pub uninterp spec fn assign_fits(value_ty: TypeLayout, place_ty: TypeLayout, n: &Node) -> bool;
 #[verifier::external_body] pub fn assign_eq_complex(value_ty: &TypeLayout, place_ty: &TypeLayout, n: &Node) -> (r: bool) ensures r == assign_fits(*value_ty, *place_ty, n) { unimplemented!() }
+// the type admits nil (TypeLayout::is_optional().0)
+pub uninterp spec fn may_be_nil(t: TypeLayout) -> bool;
+pub trait VerifOpt { fn is_optional(&self) -> (bool, Option<&TypeLayout>); }
+impl VerifOpt for TypeLayout { #[verifier::external_body] fn is_optional(&self) -> (r: (bool, Option<&TypeLayout>)) ensures r.0 == may_be_nil(*self) { unimplemented!() } }
 pub struct Reassignment { pub path: ReassignmentPath, pub value: Value }
 // ---- the `.field` step of a path
 pub uninterp spec fn path_type(p: ReassignmentPath) -> Option<TypeLayout>;          // ReassignmentPath::for_type
@@ -121,6 +125,8 @@ pub fn reassignment(input: Node) -> (r: Result<Reassignment, VErr>)
         // C03 / C02: the value's type fits the place
         &&& type_of(&r->Ok_0.value, the_class(&input)) is Some
         &&& assign_fits(type_of(&r->Ok_0.value, the_class(&input))->Some_0, place_type(path_of(path)), &input)
+        // C02: a value that may be nil never goes into a place whose type does not admit nil (`xs[0] = x`, x: int?, xs: [int...]: D50)
+        &&& !(may_be_nil(type_of(&r->Ok_0.value, the_class(&input))->Some_0) && !may_be_nil(place_type(path_of(path))))
     }}),
 {{
 {render(br, 1)}
